@@ -108,6 +108,7 @@ type c20Walk struct {
 	mc    *ssa.MakeClosure    // the closure handed to WalkDir (nil: a plain function, no shared state)
 	recv  *ssa.Parameter      // method form: the receiver of cb
 	obj   ssa.Value           // method form: the object the method value is bound to, in outer
+	via   *c20Via             // fifth pass: the walk runs in a module helper that hands every entry to cb (call = the call of that helper)
 }
 
 // c20ResolveWalk: the callback of a WalkDir call. Accepted: a function literal, a method value with pointer receiver,
@@ -117,19 +118,28 @@ func c20ResolveWalk(w *World, outer *ssa.Function, ci ssa.CallInstruction) *c20W
 		return nil
 	}
 	k := &c20Walk{w: w, outer: outer, call: ci}
-	switch a := unwrap(ci.Common().Args[1]).(type) {
+	if !k.bindCallback(ci.Common().Args[1], 3) {
+		return nil
+	}
+	return k
+}
+
+// bindCallback: the function value `arg` of the outer function as the per-entry function with `nparams` parameters.
+// Accepted: a function literal, a method value with pointer receiver, a plain function.
+func (k *c20Walk) bindCallback(arg ssa.Value, nparams int) bool {
+	switch a := unwrap(arg).(type) {
 	case *ssa.MakeClosure:
 		fn, _ := a.Fn.(*ssa.Function)
 		if fn == nil {
-			return nil
+			return false
 		}
 		k.mc = a
 		if m, ok := c20BoundTarget(fn); ok {
 			if len(a.Bindings) != 1 || len(m.Params) == 0 {
-				return nil
+				return false
 			}
 			if _, isPtr := m.Params[0].Type().Underlying().(*types.Pointer); !isPtr {
-				return nil
+				return false
 			}
 			k.cb, k.recv, k.obj = m, m.Params[0], a.Bindings[0]
 		} else if fn.Synthetic == "" {
@@ -139,20 +149,45 @@ func c20ResolveWalk(w *World, outer *ssa.Function, ci ssa.CallInstruction) *c20W
 		k.cb = a
 	}
 	if k.cb == nil || k.cb.Blocks == nil {
-		return nil
+		return false
 	}
-	want := 3
 	if k.recv != nil {
-		want = 4
+		nparams++
 	}
-	if len(k.cb.Params) != want {
-		return nil
-	}
-	return k
+	return len(k.cb.Params) == nparams
 }
 
-func (k *c20Walk) pathParam() *ssa.Parameter  { return k.cb.Params[len(k.cb.Params)-3] }
-func (k *c20Walk) entryParam() *ssa.Parameter { return k.cb.Params[len(k.cb.Params)-2] }
+// pathParam / entryParam: the parameters of the per-entry function that hold the entry's path and the entry. In a
+// WalkDir callback these are the first two; an action called by a helper's callback receives them where that callback
+// puts its own two (c20Via.pathIdx / entryIdx).
+func (k *c20Walk) pathParam() *ssa.Parameter {
+	if k.via != nil {
+		return k.cb.Params[k.recvOff()+k.via.pathIdx]
+	}
+	return k.cb.Params[len(k.cb.Params)-3]
+}
+
+func (k *c20Walk) entryParam() *ssa.Parameter {
+	if k.via != nil {
+		return k.cb.Params[k.recvOff()+k.via.entryIdx]
+	}
+	return k.cb.Params[len(k.cb.Params)-2]
+}
+
+func (k *c20Walk) recvOff() int {
+	if k.recv != nil {
+		return 1
+	}
+	return 0
+}
+
+// rootArg: the walk root as the function that started the walk names it.
+func (k *c20Walk) rootArg() ssa.Value {
+	if k.via != nil {
+		return k.call.Common().Args[k.via.rootPar]
+	}
+	return k.call.Common().Args[0]
+}
 
 func (k *c20Walk) nCells() int {
 	if k.recv != nil {
@@ -591,7 +626,7 @@ func (k *c20Walk) rootCell() int {
 	if len(k.call.Common().Args) == 0 {
 		return -1
 	}
-	rootArg := k.call.Common().Args[0]
+	rootArg := k.rootArg()
 	written := map[int]bool{}
 	for _, s := range k.stores(true) {
 		written[s.cell] = true
@@ -646,7 +681,7 @@ func c20WalkSeesOuterParam(k *c20Walk, v ssa.Value) bool {
 		return false
 	}
 	par, isParam := val.(*ssa.Parameter)
-	return isParam && par.Parent() == k.outer && val != k.call.Common().Args[0]
+	return isParam && par.Parent() == k.outer && val != k.rootArg()
 }
 
 // seesOnlyWalk: every load of the cell in the outer function reads what the walk left there.
@@ -2672,14 +2707,13 @@ func c20StrMark(k *c20Walk, cell int, g map[string]string, parser *ssa.Function,
 	if !labelHas(g, empty1) && !labelHas(g, empty2) {
 		return false
 	}
-	fi := w.Info(k.cb)
 	n := 0
 	for _, cp := range k.stores(true) {
 		if cp.cell != cell {
 			continue
 		}
 		n++
-		gs := fi.GuardsOf(cp.st)
+		gs := k.guardsAt(cp.st)
 		if !labelHas(gs, empty1) && !labelHas(gs, empty2) {
 			return false
 		}
@@ -2690,9 +2724,7 @@ func c20StrMark(k *c20Walk, cell int, g map[string]string, parser *ssa.Function,
 		switch {
 		case val == ssa.Value(k.pathParam()):
 			// the walk runs only on a root that is not empty
-			root := desc(k.call.Common().Args[0])
-			gw := w.Info(k.outer).GuardsOf(k.call)
-			if !labelHas(gw, "EQ(call:os.Stat("+root+")#err,nil)") && !labelHas(gw, "NE("+root+",const:\"\")") && !labelHas(gw, "NE(const:\"\","+root+")") {
+			if !k.rootNonEmpty() {
 				return false
 			}
 		case parser != nil && desc(val) == parsed0:
@@ -3159,4 +3191,333 @@ func c20AppendOne(v ssa.Value) (list, elem ssa.Value, ok bool) {
 		return nil, nil, false
 	}
 	return call.Call.Args[0], els[0], true
+}
+
+// ---- fifth pass: the walk skeleton in a helper that takes the per-entry action as a function value -----------------
+//
+// Class of rewrite: the code that is the same in every walk of the install tree ("the source is a directory, walk it,
+// do not enter sub-directories, look at regular files only") is moved into one module function H(root, action) and each
+// former WalkDir callback keeps only what it does with an entry — as a function literal (or method value, or function)
+// handed to H. The clauses of the property are then decided at two levels:
+//
+//   - what is said about the walk itself (SkipDir for every directory other than the root; nothing else is done per
+//     entry) is decided on H's own WalkDir callback, once for all callers;
+//   - what is said about the per-entry action (candidates, the pair, the copy) is decided on the action exactly as it
+//     was decided on a WalkDir callback, with a c20Walk whose `call` is the call of H and whose `cb` is the action. The
+//     facts that H's callback establishes before it calls the action (`d.Info()` says regular file, …) hold at the entry
+//     of the action (c20Walk.guardsAt adds them, rewritten from the callback's parameters to the action's).
+//
+// This is sound only if H is nothing but a walk (c20Delegates certifies it): the action parameter is used for nothing
+// except being called from H's WalkDir callback (never by H itself, never stored, never handed on), it is called with
+// the callback's own path and entry — so inside the action these two parameters are what WalkDir handed out —, the
+// callback returns what the action answers (an error of the action ends the walk and is the walk's result, exactly as
+// if the action's body stood in the callback), the callback itself touches no file, and the walk root is a parameter
+// of H. Then: the shared cells of the action change only while the call of H runs (H calls the action only inside
+// WalkDir, which is trusted to call its callback only before it returns), so reaching definitions with "the call of H"
+// in the place of "the WalkDir call" are right; and every invocation of the action is one entry of the walk of the
+// root the caller named.
+
+type c20Via struct {
+	hk       *c20Walk    // the helper's WalkDir call with its own callback
+	fnPar    int         // index of the helper's parameter that holds the action
+	rootPar  int         // index of the helper's parameter that is the walk root
+	calls    []*ssa.Call // the calls of the action in the helper's callback
+	pathIdx  int         // position of the entry's path among the action's arguments
+	entryIdx int         // position of the entry among the action's arguments
+	nparams  int         // number of parameters of the action
+}
+
+// c20ReturnsResult: the function hands the (error) result of `call` to its caller: every return that a path from the
+// call can reach returns that very value, or lies behind `result == nil` on every path from the call (then the nil that
+// is returned says the same). A return in the call's own block returns the call. (Decided on the must-pass facts between
+// the call and each return, not on the exits of the whole function: a `return nil` that is shared with paths that never
+// made the call carries no fact about the call in the function's summary.)
+func c20ReturnsResult(w *World, fn *ssa.Function, call *ssa.Call) bool {
+	fi := w.Info(fn)
+	nilRes := []string{"EQ(" + desc(call) + ",nil)", "EQ(" + desc(call) + "#err,nil)", "EQ(" + desc(call) + "#0,nil)"}
+	n := 0
+	for _, b := range fn.Blocks {
+		r, isRet := blockTerm(b).(*ssa.Return)
+		if !isRet || len(r.Results) == 0 {
+			continue
+		}
+		last := r.Results[len(r.Results)-1]
+		if b == call.Block() {
+			if last != ssa.Value(call) {
+				return false
+			}
+			n++
+			continue
+		}
+		l, reachable := fi.mustPassBetween([]int{call.Block().Index}, map[int]bool{b.Index: true})
+		if !reachable {
+			continue
+		}
+		n++
+		if last == ssa.Value(call) {
+			continue
+		}
+		has := false
+		for _, q := range nilRes {
+			if labelHas(l, q) {
+				has = true
+			}
+		}
+		if !has {
+			return false
+		}
+	}
+	return n > 0
+}
+
+// c20Delegates: hk is the only thing its outer function H does with a function-typed parameter (see above). Returned:
+// (nil, "") — H has no such parameter in the walk, the callback is an ordinary one; (nil, why) — H hands entries to a
+// function it was given, but is not certified as a pure walk; (via, "") — certified.
+func c20Delegates(hk *c20Walk) (*c20Via, string) {
+	w, H := hk.w, hk.outer
+	if hk.mc == nil || hk.recv != nil {
+		return nil, ""
+	}
+	written := map[int]bool{}
+	for _, s := range hk.stores(true) {
+		written[s.cell] = true
+	}
+	cell, fnPar := -1, -1
+	var par *ssa.Parameter
+	for c := 0; c < hk.nCells(); c++ {
+		defs := hk.defsBefore(hk.call, c, false)
+		for _, d := range defs {
+			if d.st == nil {
+				continue
+			}
+			val, zero, ok := hk.defValue(d, c)
+			if !ok || zero {
+				continue
+			}
+			p, isPar := val.(*ssa.Parameter)
+			if !isPar || p.Parent() != H {
+				continue
+			}
+			if _, isFn := p.Type().Underlying().(*types.Signature); !isFn {
+				continue
+			}
+			if cell >= 0 && cell != c {
+				return nil, "the walk of " + fnName(H) + " runs more than one function it was given"
+			}
+			if len(defs) != 1 {
+				return nil, "the function " + fnName(H) + " runs per entry is not decided by one definition"
+			}
+			cell, par = c, p
+		}
+	}
+	if cell < 0 {
+		return nil, ""
+	}
+	for i, p := range H.Params {
+		if p == par {
+			fnPar = i
+		}
+	}
+	sig := par.Type().Underlying().(*types.Signature)
+	if ok, why := hk.confined(); !ok {
+		return nil, "the state shared between " + fnName(H) + " and its callback is not confined to them: " + why
+	}
+	if written[cell] {
+		return nil, "the callback of " + fnName(H) + " replaces the function it was given"
+	}
+	// the parameter goes into its cell and nowhere else; H itself never reads the cell (it never runs the action)
+	if refs := par.Referrers(); refs != nil {
+		for _, r := range *refs {
+			switch x := r.(type) {
+			case *ssa.Store:
+				if c, ok := hk.outerCell(x.Addr); !ok || c != cell || x.Val != ssa.Value(par) {
+					return nil, fnName(H) + " stores the function it was given somewhere else"
+				}
+			case *ssa.DebugRef:
+			default:
+				return nil, fnName(H) + " uses the function it was given outside the walk"
+			}
+		}
+	}
+	if len(hk.loads(false, cell)) > 0 {
+		return nil, fnName(H) + " itself reads the function it was given (it may run it outside the walk)"
+	}
+	via := &c20Via{hk: hk, fnPar: fnPar, rootPar: -1, pathIdx: -1, entryIdx: -1, nparams: sig.Params().Len()}
+	// the callback only calls it, with its own path and entry, and returns the answer
+	for _, u := range hk.loads(true, cell) {
+		if u.Referrers() == nil {
+			continue
+		}
+		for _, r := range *u.Referrers() {
+			if _, isDbg := r.(*ssa.DebugRef); isDbg {
+				continue
+			}
+			call, isCall := r.(*ssa.Call)
+			if !isCall || call.Call.IsInvoke() || call.Call.Value != ssa.Value(u) {
+				return nil, "the callback of " + fnName(H) + " does something else with the function than calling it"
+			}
+			pi, ei := -1, -1
+			for i, a := range call.Call.Args {
+				switch {
+				case a == ssa.Value(u):
+					return nil, "the callback of " + fnName(H) + " hands the function to itself"
+				case a == ssa.Value(hk.pathParam()) && pi < 0:
+					pi = i
+				case a == ssa.Value(hk.entryParam()) && ei < 0:
+					ei = i
+				}
+			}
+			if pi < 0 || ei < 0 || (len(via.calls) > 0 && (pi != via.pathIdx || ei != via.entryIdx)) {
+				return nil, "the callback of " + fnName(H) + " does not call the function with its own path and entry"
+			}
+			if !c20ReturnsResult(w, hk.cb, call) {
+				return nil, "the callback of " + fnName(H) + " does not return what the function answers"
+			}
+			via.pathIdx, via.entryIdx = pi, ei
+			via.calls = append(via.calls, call)
+		}
+	}
+	if len(via.calls) == 0 {
+		return nil, "the callback of " + fnName(H) + " never calls the function " + fnName(H) + " was given"
+	}
+	// the callback itself touches no file
+	for _, ci := range allCalls(hk.cb) {
+		if _, isMut := c20Mutators[calleeName(ci)]; isMut {
+			return nil, "the callback of " + fnName(H) + " modifies files itself"
+		}
+		if g := staticCallee(ci); g != nil && w.IsProductFn(g) && len(c20Reach(w, g)) > 0 {
+			return nil, "the callback of " + fnName(H) + " modifies files itself (through " + fnName(g) + ")"
+		}
+	}
+	// the root is a parameter of H
+	if _, v, ok := hk.value(hk.rootArg(), false); ok && v != nil {
+		if rp, isPar := v.(*ssa.Parameter); isPar && rp.Parent() == H {
+			for i, p := range H.Params {
+				if p == rp {
+					via.rootPar = i
+				}
+			}
+		}
+	}
+	if via.rootPar < 0 {
+		return nil, "the root of the walk of " + fnName(H) + " is not one of its parameters"
+	}
+	return via, ""
+}
+
+// c20ResolveVia: the call `ci` of the certified walk helper in `outer`, as a walk whose per-entry function is the action
+// the caller hands over.
+func c20ResolveVia(w *World, outer *ssa.Function, ci ssa.CallInstruction, via *c20Via) *c20Walk {
+	args := ci.Common().Args
+	if via.fnPar >= len(args) || via.rootPar >= len(args) || ci.Common().IsInvoke() {
+		return nil
+	}
+	if _, isCall := ci.(*ssa.Call); !isCall {
+		return nil // go / defer: the action would run after the caller went on
+	}
+	k := &c20Walk{w: w, outer: outer, call: ci, via: via}
+	if !k.bindCallback(args[via.fnPar], via.nparams) {
+		return nil
+	}
+	return k
+}
+
+// entryGuards: the facts that hold whenever the per-entry function is entered, in terms of its own parameters: what
+// every path of the helper's callback to (each of) its call(s) of the action must pass. Only facts about the entry and
+// its path are kept (labels that mention other parameters, captured variables or locals of that callback are dropped).
+func (k *c20Walk) entryGuards() map[string]string {
+	if k.via == nil {
+		return nil
+	}
+	hk := k.via.hk
+	fi := k.w.Info(hk.cb)
+	names := []string{hk.pathParam().Name(), hk.entryParam().Name()}
+	descs := []string{"param:" + k.pathParam().Name(), "param:" + k.entryParam().Name()}
+	var out map[string]string
+	for i, call := range k.via.calls {
+		m := map[string]string{}
+		for l, pos := range fi.GuardsOf(call) {
+			l2 := substParams(l, names, descs)
+			if strings.Contains(l2, "param?:") || strings.Contains(l2, "free:") || strings.Contains(l2, "alloc:") || strings.Contains(l2, "phi(") {
+				continue
+			}
+			m[l2] = pos
+		}
+		if i == 0 {
+			out = m
+			continue
+		}
+		for l := range out {
+			if _, ok := m[l]; !ok {
+				delete(out, l)
+			}
+		}
+	}
+	return out
+}
+
+// guardsAt: the facts that hold whenever the per-entry function reaches `in`: its own must-pass labels plus what holds
+// at its entry.
+func (k *c20Walk) guardsAt(in ssa.Instruction) map[string]string {
+	g := k.w.Info(k.cb).GuardsOf(in)
+	eg := k.entryGuards()
+	if len(eg) == 0 || g == nil {
+		return g
+	}
+	out := map[string]string{}
+	for l, p := range eg {
+		out[l] = p
+	}
+	for l, p := range g {
+		out[l] = p
+	}
+	return out
+}
+
+// rootNonEmpty: the walk runs only on a root that is not the empty string: os.Stat accepted it, or it was compared with
+// "" — on every path to the WalkDir call, in the function that holds that call.
+func (k *c20Walk) rootNonEmpty() bool {
+	at := k
+	if k.via != nil {
+		at = k.via.hk
+	}
+	root := desc(at.rootArg())
+	gw := k.w.Info(at.outer).GuardsOf(at.call)
+	return labelHas(gw, "EQ(call:os.Stat("+root+")#err,nil)") || labelHas(gw, "NE("+root+",const:\"\")") || labelHas(gw, "NE(const:\"\","+root+")")
+}
+
+// everyPathReaches: from the true edge of every test `label` of the per-entry function, each path that can still end in
+// success passes the block of one of the targets. Returned false when there is no such test.
+func c20EveryPathReaches(w *World, fn *ssa.Function, label string, targets []*ssa.Call) bool {
+	fi := w.Info(fn)
+	cut := map[edgeKey]bool{}
+	isTarget := map[*ssa.BasicBlock]bool{}
+	for _, t := range targets {
+		cutInto(fi, t.Block(), cut)
+		isTarget[t.Block()] = true
+	}
+	n, ok := 0, true
+	for _, b := range fn.Blocks {
+		if iff, isIf := blockTerm(b).(*ssa.If); isIf && condLabel(iff.Cond, true) == label {
+			n++
+			if isTarget[b.Succs[0]] {
+				continue
+			}
+			if fi.successWitness(Mode{Kind: mErr}, []state{{b.Succs[0].Index, 0, -1}}, cut) != nil {
+				ok = false
+			}
+		}
+	}
+	return n > 0 && ok
+}
+
+// c20FromEntryReaches: every path of fn from its entry that can still end in success passes the block of the call.
+func c20FromEntryReaches(w *World, fn *ssa.Function, target *ssa.Call) bool {
+	if target.Block().Index == 0 {
+		return true
+	}
+	fi := w.Info(fn)
+	cut := map[edgeKey]bool{}
+	cutInto(fi, target.Block(), cut)
+	return fi.successWitness(Mode{Kind: mErr}, []state{{0, 0, -1}}, cut) == nil
 }
